@@ -71,15 +71,17 @@ IsMacroTarget(t) == t \in {"mac_item", "mac_assoc", "mac_init", "mac_stmt", "mac
 SkipNodes(c) ==
   CASE c \in {"top", "mod", "modI", "modfileI", "modfileO"} ->
          {"fn", "struct", "enum", "union", "impl", "trait", "mod", "const", "static", "type", "use",
-          "externcrate", "macrodef", "foreign", "field", "variant", "fn_ml", "struct_ml", "impl_ml"}
-    [] c \in {"impl", "trait"} -> {"afn", "aconst", "atype", "afn_ml"}
+          "externcrate", "macrodef", "foreign", "field", "variant", "fn_ml", "struct_ml", "impl_ml",
+          \* the attribute as an inner attribute of the node's own body
+          "fn_inner", "impl_inner", "trait_inner", "mod_inner", "foreign_inner"}
+    [] c \in {"impl", "trait"} -> {"afn", "aconst", "atype", "afn_ml", "afn_inner"}
     [] c = "letd" -> {}
     [] OTHER -> {"let", "exprstmt", "macstmt", "arm", "litfield", "expr", "fn", "struct", "let_ml", "arm_ml",
                  "closurestmt",
                  \* attributed expressions in argument / element position (paths that rewrite the
                  \* last argument of a call do not go through format_expr)
                  "closurearg_if", "closurearg_block", "closurearg_loop", "callarg", "lastarg",
-                 "tupleelem", "arrayelem", "binop", "retval"}
+                 "tupleelem", "arrayelem", "binop", "retval", "fn_inner", "block_inner"}
 Spellings == {"skip", "depr", "cfg_skip", "cfg_depr", "cfg_cfg_skip", "cfg_multi"}
 Cfgs == {"none", "m", "star"}
 
